@@ -121,3 +121,31 @@ Proof.
   unfold vawb, vaw. rewrite forallb_forall, Forall_forall. intros H q Hq. specialize (H q Hq).
   apply andb_true_iff in H. destruct H as [A B]. split; [exact A|apply Z.leb_le, B].
 Qed.
+
+(* C04 on the narrow contract, without the decidable premise *)
+From Coupe Require Import Proofs.RcbBox.
+
+Definition contract_range (pts : list (list spec_float)) (ws : list Z) : Prop :=
+  coords_in_f32_range pts /\ Forall (fun w => 0 <= w) ws.
+
+Theorem rcb_split_balanced_contract : forall fuel sched D k tol pts ws p0 p,
+  Forall (fun pt => length pt = D) pts -> contract_range pts ws ->
+  rcb head_variant fuel sched D k tol pts ws p0 = Ok p ->
+  exists t, Permutation t (combine (combine (to32 pts) ws) p) /\ BalT tol D k 0%nat t.
+Proof.
+  intros fuel sched D k tol pts ws p0 p Hshape [Hr Hnn] H.
+  assert (Hc : contract pts ws).
+  { split; [|exact Hnn]. unfold coords_in_f32_range, to32 in *. rewrite Forall_forall in *. intros p32 Hp.
+    apply in_map_iff in Hp. destruct Hp as (q & <- & Hq). specialize (Hr q Hq).
+    rewrite Forall_forall in *. intros c32 Hcc. apply in_map_iff in Hcc. destruct Hcc as (c & <- & Hcq).
+    exact (proj2 (proj2 (Hr c Hcq))). }
+  destruct pts as [|pt0 pts'] eqn:Ep.
+  - unfold rcb in H. destruct (Nat.eqb (length ws) (length p0)); cbn [negb] in H; [|discriminate].
+    destruct (Nat.eqb (length (@nil (list spec_float))) (length p0)); cbn [negb] in H; [|discriminate].
+    inversion H; subst. exists []. split; [constructor|]. apply bal_leaf. intros x y [].
+  - rewrite <- Ep in *. apply (rcb_split_balanced fuel sched D k tol pts ws p0 p Hc); [|exact H].
+    apply box_ok32_holds; try assumption; [rewrite Ep; discriminate|].
+    unfold rcb in H. destruct (Nat.eqb (length ws) (length p0)) eqn:E1; cbn [negb] in H; [|discriminate].
+    destruct (Nat.eqb (length pts) (length p0)) eqn:E2; cbn [negb] in H; [|discriminate].
+    apply Nat.eqb_eq in E1, E2. lia.
+Qed.
